@@ -28,7 +28,7 @@ ASSUMPTIONS = ["one case in four enters dimensionless size ratios below their de
 REQUIRED_MONITORS = ["length_scaling_I", "length_scaling_Fq", "sld_scaling"]
 REQUIRED_BUCKETS = {"quick": ["pd:on", "pd:off", "mode>0", "dim:2d", "mesh>100:mode>0", "dist:lognormal", "dist:schulz", "dist:gaussian", "magnetic", "dist:rectangle", "dist:uniform",
                               "reparameterised:typed", "reparameterised:untyped", "magnetic:vector-sld-elements", "product:P-owns-volfraction", "product:S-owns-volfraction",
-                              "python-shape-plugin-without-radius_effective"]}
+                              "python-shape-plugin-without-radius_effective", "product:magnetic-2d"]}
 REQUIRED_BUCKETS["thorough"] = REQUIRED_BUCKETS["quick"]
 
 UNIT_EXP = {"Ang": 1, "Ang^2": 2, "Ang^3": 3, "1/Ang": -1, "1/Ang^2": -2, "1/Ang^3": -3, "Ang^-1": -1, "Ang^-2": -2}
@@ -122,6 +122,16 @@ def run_product(case, rec):
     lam, mu = float(rng.uniform(0.4, 2.5)), float(rng.uniform(0.3, 3.0))
     size = max([abs(pars[p.name]) for p in i.parameters.call_parameters if p.units == "Ang" and p.name in pars] + [1.0])
     q = [np.clip(np.exp(rng.uniform(math.log(0.2/size), math.log(6.0/size), 4)), 1e-7, 10.0)]
+    if case["k"] % 2 == 1:
+        # 2-D data with a magnetised SLD of the form factor (magnetisations are entered in the SLD unit)
+        q = [q[0]*math.cos(0.7), q[0]*math.sin(0.7)]
+        slds_ = [p.name for p in i.parameters.call_parameters if p.type == "sld"]
+        if slds_:
+            s0 = slds_[int(rng.integers(len(slds_)))]
+            pars.update({s0 + "_M0": float(rng.uniform(0.5, 4)), s0 + "_mtheta": float(rng.uniform(-80, 80)),
+                         s0 + "_mphi": float(rng.uniform(-170, 170)), "up_frac_i": float(rng.uniform(0, 1)),
+                         "up_frac_f": float(rng.uniform(0, 1)), "up_theta": float(rng.uniform(0, 180)), "up_phi": float(rng.uniform(0, 180))})
+            rec.bucket("product:magnetic-2d")
     I0 = np.asarray(direct_model.call_kernel(model.make_kernel(q), dict(pars)), float)
     p1 = scaled(i, pars, lam, 1.0)
     I1 = np.asarray(direct_model.call_kernel(model.make_kernel([a/lam for a in q]), dict(p1)), float)
